@@ -189,8 +189,15 @@ def run(ctx):
             return None  # next iteration: not left yet
         return tag
     states = g.explore_tagged(tag_edge)
-    bad_not = [n for n in notconv if (n.id, "break") in states]
-    bad_conv = [n for n in conv if (n.id, "exhausted") in states]
+    # a report that re-tests the stop criterion itself is decided by how the loop ended: after a break the residual is <= tol, after exhaustion it is > tol
+    # (the residual is not rebound after the loop: R2), so such a guard prunes the other way of leaving the loop
+    def retests(n, met):
+        txt = {(norm(a).replace(" ", ""), p) for a, p, _ in controlling(md, n.stmt)}
+        yes = {(f"{FE}<=self.force_tol", True), (f"{FE}>self.force_tol", False), (f"self.force_tol>={FE}", True), (f"self.force_tol<{FE}", False)}
+        no = {(c, not p) for c, p in yes}
+        return bool(txt & (yes if met else no)) and not [x for x in fe_nodes if x.id not in body_nodes]
+    bad_not = [n for n in notconv if (n.id, "break") in states and not retests(n, False)]
+    bad_conv = [n for n in conv if (n.id, "exhausted") in states and not retests(n, True)]
     if bad_not or bad_conv:
         # one finding, keyed on the construct that decides the report
         decider = None
